@@ -6,6 +6,7 @@
 #include <gmssl/sm9.h>
 #include <gmssl/sm9_z256.h>
 #include <gmssl/mem.h>
+#include <gmssl/pem.h>
 
 static const uint8_t P_BYTES[32] = {0xb6,0x40,0x00,0x00,0x02,0xa3,0xa6,0xf1,0xd6,0x03,0xab,0x4f,0xf5,0x8e,0xc7,0x45,
 	0x21,0xf2,0x93,0x4b,0x1a,0x7a,0xee,0xdb,0xe5,0x6f,0x9b,0x27,0xe3,0x51,0x45,0x7d};
@@ -453,6 +454,20 @@ static void do_exch(size_t nw, char **w) {
 	r2 = r1 == 1 ? sm9_exch_step_1B(&me, (char *)idA.p, idA.n, (char *)idB.p, idB.n, &kB, &RA, &RB, skB, klen) : -1;
 	r3 = r2 == 1 ? sm9_exch_step_2A(&me, (char *)idA.p, idA.n, (char *)idB.p, idB.n, &kA, rA, &RA, &RB, skA, klen) : -1;
 	if (r1 != 1 || r2 != 1 || r3 != 1) { printf("ERR exch %d %d %d", r1, r2, r3); goto end; }
+	{ /* independent recomputation: g1 = e(Ppube,P2)^rA, g2 = e(RB,deA), g3 = g2^rA; sk = KDF(IDA||IDB||RA||RB||g1||g2||g3) */
+	  sm9_z256_fp12_t G1, G2, G3; uint8_t *g = malloc(384), *ta = malloc(65), *tb = malloc(65), *ref = malloc(klen ? klen : 1); SM3_KDF_CTX kc; SM9_Z256_POINT Pp;
+	  sm9_z256_point_mul(&Pp, ke, sm9_z256_generator());
+	  sm9_z256_pairing(G1, sm9_z256_twist_generator(), &Pp); sm9_z256_fp12_pow(G1, G1, rA);
+	  sm9_z256_pairing(G2, &kA.de, &RB); sm9_z256_fp12_pow(G3, G2, rA);
+	  sm9_z256_point_to_uncompressed_octets(&RA, ta); sm9_z256_point_to_uncompressed_octets(&RB, tb);
+	  sm3_kdf_init(&kc, klen); sm3_kdf_update(&kc, idA.p, idA.n); sm3_kdf_update(&kc, idB.p, idB.n);
+	  sm3_kdf_update(&kc, ta + 1, 64); sm3_kdf_update(&kc, tb + 1, 64);
+	  sm9_z256_fp12_to_bytes(G1, g); sm3_kdf_update(&kc, g, 384);
+	  sm9_z256_fp12_to_bytes(G2, g); sm3_kdf_update(&kc, g, 384);
+	  sm9_z256_fp12_to_bytes(G3, g); sm3_kdf_update(&kc, g, 384);
+	  sm3_kdf_finish(&kc, ref);
+	  printf("skref=%d ", memcmp(ref, skA, klen) == 0);
+	  free(g); free(ta); free(tb); free(ref); }
 	printf("skeq=%d RA=", memcmp(skA, skB, klen) == 0); put_g1(&RA); printf(" RB="); put_g1(&RB);
 	printf(" rA="); put_z(rA); printf(" sk="); puthex(skA, klen);
 end:
@@ -593,6 +608,146 @@ static void do_keyinfodec(size_t nw, char **w) {
 	free(b.p);
 }
 
+/* ---- predicates of the tower: pred <lvl> <op> a [b] -> 0|1 */
+static void do_pred(size_t nw, char **w) {
+	const char *lv = w[1], *op = w[2];
+	if (!strcmp(lv, "fp2")) {
+		sm9_z256_fp2_t a, b;
+		if (!get_fp2(w[3], a) || (nw == 5 && !get_fp2(w[4], b))) { printf("ERR"); return; }
+		if (!strcmp(op, "equ") && nw == 5) printf("%d", sm9_z256_fp2_equ(a, b) != 0);
+		else if (!strcmp(op, "iszero")) printf("%d", sm9_z256_fp2_is_zero(a) != 0);
+		else if (!strcmp(op, "isone")) printf("%d", sm9_z256_fp2_is_one(a) != 0);
+		else printf("ERR bad-op");
+	} else if (!strcmp(lv, "fp4")) {
+		sm9_z256_fp4_t a, b;
+		if (!get_fp4(w[3], a) || (nw == 5 && !get_fp4(w[4], b))) { printf("ERR"); return; }
+		if (!strcmp(op, "equ") && nw == 5) printf("%d", sm9_z256_fp4_equ(a, b) != 0);
+		else if (!strcmp(op, "iszero")) printf("%d", sm9_z256_fp4_is_zero(a) != 0);
+		else printf("ERR bad-op");
+	} else if (!strcmp(lv, "fp12")) {
+		sm9_z256_fp12_t a, b;
+		if (!get_fp12(w[3], a) || nw != 5 || !get_fp12(w[4], b)) { printf("ERR"); return; }
+		if (!strcmp(op, "equ")) printf("%d", sm9_z256_fp12_equ(a, b) != 0); else printf("ERR bad-op");
+	} else if (!strcmp(lv, "g1") && nw == 5) {          /* point_equ on two encodings */
+		SM9_Z256_POINT P, Q; if (!get_g1(w[3], &P) || !get_g1(w[4], &Q)) { printf("ERR"); return; }
+		printf("%d", sm9_z256_point_equ(&P, &Q) != 0);
+	} else if (!strcmp(lv, "g2") && nw == 5) {
+		SM9_Z256_TWIST_POINT P, Q; if (!get_g2(w[3], &P) || !get_g2(w[4], &Q)) { printf("ERR"); return; }
+		printf("%d", sm9_z256_twist_point_equ(&P, &Q) != 0);
+	} else printf("ERR bad-op");
+}
+/* ---- the same group operation on another Jacobian representative (X j^2 : Y j^3 : Z j) */
+static void g1_scale(SM9_Z256_POINT *P, const sm9_z256_t j) {
+	sm9_z256_t j2, j3; sm9_z256_modp_mont_sqr(j2, j); sm9_z256_modp_mont_mul(j3, j2, j);
+	sm9_z256_modp_mont_mul(P->X, P->X, j2); sm9_z256_modp_mont_mul(P->Y, P->Y, j3); sm9_z256_modp_mont_mul(P->Z, P->Z, j);
+}
+static void g2_scale(SM9_Z256_TWIST_POINT *P, const sm9_z256_fp2_t j) {
+	sm9_z256_fp2_t j2, j3; sm9_z256_fp2_sqr(j2, j); sm9_z256_fp2_mul(j3, j2, j);
+	sm9_z256_fp2_mul(P->X, P->X, j2); sm9_z256_fp2_mul(P->Y, P->Y, j3); sm9_z256_fp2_mul(P->Z, P->Z, j);
+}
+/* jac g1 mul k P j | jac g1 add P Q j1 j2 | jac g1 dbl P j | jac g2 mul k P j(fp2) | jac g2 add P Q j1 j2 | jac g2 dbl P j */
+static void do_jac(size_t nw, char **w) {
+	const char *op = w[2];
+	if (!strcmp(w[1], "g1")) {
+		SM9_Z256_POINT P, Q, R; sm9_z256_t k, j1, j2;
+		if (!strcmp(op, "mul") && nw == 6) { if (!get_z(w[3], k) || !get_g1(w[4], &P) || !get_fp(w[5], j1)) { printf("ERR"); return; } g1_scale(&P, j1); sm9_z256_point_mul(&R, k, &P); }
+		else if ((!strcmp(op, "add") || !strcmp(op, "sub")) && nw == 7) { if (!get_g1(w[3], &P) || !get_g1(w[4], &Q) || !get_fp(w[5], j1) || !get_fp(w[6], j2)) { printf("ERR"); return; }
+			g1_scale(&P, j1); g1_scale(&Q, j2); if (op[0] == 'a') sm9_z256_point_add(&R, &P, &Q); else sm9_z256_point_sub(&R, &P, &Q); }
+		else if (!strcmp(op, "dbl") && nw == 5) { if (!get_g1(w[3], &P) || !get_fp(w[4], j1)) { printf("ERR"); return; } g1_scale(&P, j1); sm9_z256_point_dbl(&R, &P); }
+		else { printf("ERR bad-op"); return; }
+		put_g1(&R);
+	} else {
+		SM9_Z256_TWIST_POINT P, Q, R; sm9_z256_t k; sm9_z256_fp2_t j1, j2;
+		if (!strcmp(op, "mul") && nw == 6) { if (!get_z(w[3], k) || !get_g2(w[4], &P) || !get_fp2(w[5], j1)) { printf("ERR"); return; } g2_scale(&P, j1); sm9_z256_twist_point_mul(&R, k, &P); }
+		else if ((!strcmp(op, "add") || !strcmp(op, "sub")) && nw == 7) { if (!get_g2(w[3], &P) || !get_g2(w[4], &Q) || !get_fp2(w[5], j1) || !get_fp2(w[6], j2)) { printf("ERR"); return; }
+			g2_scale(&P, j1); g2_scale(&Q, j2); if (op[0] == 'a') sm9_z256_twist_point_add_full(&R, &P, &Q); else sm9_z256_twist_point_sub(&R, &P, &Q); }
+		else if (!strcmp(op, "dbl") && nw == 5) { if (!get_g2(w[3], &P) || !get_fp2(w[4], j1)) { printf("ERR"); return; } g2_scale(&P, j1); sm9_z256_twist_point_dbl(&R, &P); }
+		else { printf("ERR bad-op"); return; }
+		put_g2(&R);
+	}
+}
+/* ---- key containers through every import interface ------------------------------------- */
+static int lenient_g1(const char *hex, SM9_Z256_POINT *P) {           /* coordinates taken as given: NO curve check */
+	if (strlen(hex) != 128) return 0;
+	{ char a[65], b[65]; memcpy(a, hex, 64); a[64] = 0; memcpy(b, hex + 64, 64); b[64] = 0;
+	  if (!get_fp(a, P->X) || !get_fp(b, P->Y)) return 0; }
+	sm9_z256_copy(P->Z, sm9_z256_generator()->Z); return 1;
+}
+static int lenient_g2(const char *hex, SM9_Z256_TWIST_POINT *P) {
+	char a[129], b[129]; if (strlen(hex) != 256) return 0;
+	memcpy(a, hex, 128); a[128] = 0; memcpy(b, hex + 128, 128); b[128] = 0;
+	if (!get_fp2(a, P->X) || !get_fp2(b, P->Y)) return 0;
+	sm9_z256_fp2_set_one(P->Z); return 1;
+}
+static int info_enc_pem(const char *kind, const anykey_t *k, const char *pass, FILE *fp) {
+	if (!strcmp(kind, "smsk")) return sm9_sign_master_key_info_encrypt_to_pem(&k->sm, pass, fp);
+	if (!strcmp(kind, "skey")) return sm9_sign_key_info_encrypt_to_pem(&k->sk, pass, fp);
+	if (!strcmp(kind, "emsk")) return sm9_enc_master_key_info_encrypt_to_pem(&k->em, pass, fp);
+	if (!strcmp(kind, "ekey")) return sm9_enc_key_info_encrypt_to_pem(&k->ek, pass, fp);
+	return -2;
+}
+static int info_dec_pem(const char *kind, anykey_t *k, const char *pass, FILE *fp) {
+	if (!strcmp(kind, "smsk")) return sm9_sign_master_key_info_decrypt_from_pem(&k->sm, pass, fp);
+	if (!strcmp(kind, "skey")) return sm9_sign_key_info_decrypt_from_pem(&k->sk, pass, fp);
+	if (!strcmp(kind, "emsk")) return sm9_enc_master_key_info_decrypt_from_pem(&k->em, pass, fp);
+	if (!strcmp(kind, "ekey")) return sm9_enc_key_info_decrypt_from_pem(&k->ek, pass, fp);
+	return -2;
+}
+static const char *pem_label(const char *kind) {
+	if (!strcmp(kind, "smsk")) return PEM_SM9_SIGN_MASTER_KEY;
+	if (!strcmp(kind, "smpk")) return PEM_SM9_SIGN_MASTER_PUBLIC_KEY;
+	if (!strcmp(kind, "skey")) return PEM_SM9_SIGN_PRIVATE_KEY;
+	if (!strcmp(kind, "emsk")) return PEM_SM9_ENC_MASTER_KEY;
+	if (!strcmp(kind, "empk")) return PEM_SM9_ENC_MASTER_PUBLIC_KEY;
+	return PEM_SM9_ENC_PRIVATE_KEY;
+}
+static void put_key_result(const char *kind, int r, const anykey_t *k) {
+	if (r == 1) {
+		uint8_t *buf = malloc(512), *q = buf; size_t len = 0;
+		printf("1 ");
+		if (key_to_der(kind, k, &q, &len) == 1) puthex(buf, len); else printf("REENC-FAIL");
+		free(buf);
+	} else printf("%d", r < 0 ? -1 : r);
+}
+/* keyimp <kind> <info|pem> <k|-> <g1|-> <g2|->: a private container whose fields are taken as given
+   (no curve check on the way in) is encrypted by the library and loaded back */
+static void do_keyimp(size_t nw, char **w) {
+	anykey_t k, k2; const char *kind = w[1]; sm9_z256_t s; SM9_Z256_POINT g1; SM9_Z256_TWIST_POINT g2; int r = -1;
+	if (nw != 6) { printf("ERR"); return; }
+	memset(&k, 0, sizeof(k)); memset(&k2, 0, sizeof(k2));
+	if (strcmp(w[3], "-") && !get_z(w[3], s)) { printf("ERR"); return; }
+	if (strcmp(w[4], "-") && !lenient_g1(w[4], &g1)) { printf("ERR"); return; }
+	if (strcmp(w[5], "-") && !lenient_g2(w[5], &g2)) { printf("ERR"); return; }
+	if (!strcmp(kind, "smsk")) { sm9_z256_copy(k.sm.ks, s); k.sm.Ppubs = g2; }
+	else if (!strcmp(kind, "skey")) { k.sk.ds = g1; k.sk.Ppubs = g2; }
+	else if (!strcmp(kind, "emsk")) { sm9_z256_copy(k.em.ke, s); k.em.Ppube = g1; }
+	else if (!strcmp(kind, "ekey")) { k.ek.de = g2; k.ek.Ppube = g1; }
+	else { printf("ERR"); return; }
+	if (!strcmp(w[2], "info")) {
+		uint8_t *buf = malloc(SM9_MAX_ENCED_PRIVATE_KEY_INFO_SIZE), *p = buf; const uint8_t *cp = buf; size_t len = 0;
+		if (info_enc(kind, &k, "pw", &p, &len) != 1) { printf("ERR enc"); free(buf); return; }
+		r = info_dec(kind, &k2, "pw", &cp, &len); if (r == 1 && len != 0) r = -1;
+		free(buf);
+	} else {
+		FILE *fp = tmpfile(); if (!fp) { printf("ERR tmpfile"); return; }
+		if (info_enc_pem(kind, &k, "pw", fp) != 1) { printf("ERR enc"); fclose(fp); return; }
+		rewind(fp); r = info_dec_pem(kind, &k2, "pw", fp); fclose(fp);
+	}
+	put_key_result(kind, r, &k2);
+}
+/* keypem <loader kind> <pass|-> <der hex>: arbitrary bytes wrapped under the loader's PEM label */
+static void do_keypem(size_t nw, char **w) {
+	anykey_t k; const char *kind = w[1]; buf_t b; FILE *fp; int r;
+	if (nw != 4) { printf("ERR"); return; }
+	b = hex2buf(w[3]); memset(&k, 0, sizeof(k)); fp = tmpfile();
+	if (!fp || pem_write(fp, pem_label(kind), b.p, b.n) != 1) { printf("ERR pem"); free(b.p); if (fp) fclose(fp); return; }
+	rewind(fp);
+	if (!strcmp(kind, "smpk")) r = sm9_sign_master_public_key_from_pem(&k.sm, fp);
+	else if (!strcmp(kind, "empk")) r = sm9_enc_master_public_key_from_pem(&k.em, fp);
+	else r = info_dec_pem(kind, &k, w[2], fp);
+	fclose(fp); put_key_result(kind, r, &k); free(b.p);
+}
+
 static void handle(size_t nw, char **w) {
 	if (!strcmp(w[0], "fp") && (nw == 3 || nw == 4)) do_fp(nw, w);
 	else if (!strcmp(w[0], "fp2") && (nw == 3 || nw == 4)) do_fp2(nw, w);
@@ -614,6 +769,12 @@ static void handle(size_t nw, char **w) {
 		if (!get_z(w[1], ks)) { printf("ERR"); return; }
 		sm9_z256_twist_point_mul_generator(&Q, ks); sm9_z256_pairing(g, &Q, sm9_z256_generator()); put_fp12(g);
 	}
+	else if (!strcmp(w[0], "pred") && nw >= 4) do_pred(nw, w);
+	else if (!strcmp(w[0], "jac") && nw >= 5) do_jac(nw, w);
+	else if (!strcmp(w[0], "keyimp")) do_keyimp(nw, w);
+	else if (!strcmp(w[0], "keypem")) do_keypem(nw, w);
+	else if (!strcmp(w[0], "sizes")) printf("SM9_MAX_PRIVATE_KEY_SIZE=%d SM9_SIGN_MASTER_KEY_MAX_SIZE=%d SM9_SIGN_KEY_SIZE=%d SM9_ENC_MASTER_KEY_MAX_SIZE=%d SM9_ENC_KEY_SIZE=%d SM9_MAX_PRIVATE_KEY_INFO_SIZE=%d SM9_MAX_ENCED_PRIVATE_KEY_INFO_SIZE=%d",
+		(int)SM9_MAX_PRIVATE_KEY_SIZE, (int)SM9_SIGN_MASTER_KEY_MAX_SIZE, (int)SM9_SIGN_KEY_SIZE, (int)SM9_ENC_MASTER_KEY_MAX_SIZE, (int)SM9_ENC_KEY_SIZE, (int)SM9_MAX_PRIVATE_KEY_INFO_SIZE, (int)SM9_MAX_ENCED_PRIVATE_KEY_INFO_SIZE);
 	else if (!strcmp(w[0], "dersig") && nw == 2) do_dersig(w);
 	else if (!strcmp(w[0], "derct") && nw == 2) do_derct(w);
 	else if (!strcmp(w[0], "sigapi")) do_sigapi(nw, w);
